@@ -543,7 +543,7 @@ func runC09(args []string) int {
 	}
 	// keys and proofs
 	curves := []ecc.ID{ecc.BN254, ecc.BLS12_377}
-	if o.Thorough() {
+	if o.AllCurves() {
 		curves = []ecc.ID{ecc.BN254, ecc.BLS12_377, ecc.BLS12_381, ecc.BW6_761, ecc.BLS24_315, ecc.BLS24_317, ecc.BW6_633}
 	}
 	for _, id := range curves {
